@@ -908,6 +908,8 @@ def run(ctx):
     exe = ctx.cc("c01", ["c01.c"], "asan", libs=("turbojpeg",))
     blk = ctx.cc("c01blk", ["c01blk.c"], "asan", libs=("jpeg",))
     ctx.prog_exe = ctx.cc("c01prog", ["c01prog.c"], "asan", libs=("jpeg",))
+    ctx.arith_exe = ctx.cc("c01arith", ["c01arith.c"], "asan", libs=("jpeg",))
+    ctx.coef_exe = ctx.cc("c01coef", ["c01coef.c"], "asan", libs=("jpeg",))
 
     if ctx.replay:
         r = json.load(open(ctx.replay))
@@ -1016,6 +1018,23 @@ def run(ctx):
         streams.append((many_scans(rng, b, segments(b), rng.choice([12, 20, 40])), "scanlimit"))
     for (s, kind) in streams:
         cases.append(("hdr " + s.hex(), kind))
+    # arithmetic sequential streams (valid + entropy data damaged) for the statistics-bin offset correspondence
+    aseq = make_extra_seeds(ctx, rng, exe, ["mk 3 8 2 24 20 0 0 %d 1 0", "mk 3 8 0 17 9 0 0 %d 1 0", "mk 3 8 3 16 16 0 0 %d 1 0",
+                                            "mk 3 8 1 33 8 2 0 %d 1 0", "mk 3 8 -1 16 8 0 0 %d 1 0", "mk 3 8 5 40 8 0 0 %d 1 0"])
+    for j in range(ctx.n(60, 1200)):
+        b = bytearray(aseq[j % len(aseq)])
+        if j >= len(aseq):
+            sosp = bytes(b).rfind(b"\xff\xda")
+            lo = sosp + 14 if sosp > 0 else len(b) // 2
+            for _ in range(rng.range(1, 6)):
+                q = rng.range(min(lo, len(b) - 3), len(b) - 3)
+                b[q] = rng.choice([b[q] ^ (1 << rng.below(8)), 0x00, 0xFE, rng.below(255)])
+        cases.append(("ari " + bytes(b).hex(), "arith-offsets"))
+    # coefficient-controller block positions: valid 8-bit streams of every layout (interleaved and single-component scans)
+    csrc = [s2 for (s2, tag) in seeds if tag in ("p0", "p2", "p3", "p4")] + make_extra_seeds(ctx, rng, exe, [
+        "mk 2 8 2 96 40 0 0 %d 1 0", "mk 0 8 1 80 24 0 0 %d 1 0", "mk 2 8 4 64 48 0 0 %d 1 0", "mk 4 8 5 96 16 0 0 %d 1 0", "mk 2 8 -1 33 17 0 0 %d 1 0"])
+    for j in range(ctx.n(40, 400)):
+        cases.append(("coef " + csrc[j % len(csrc)].hex(), "coef-positions"))
     # crafted lossless streams with non-unit sampling factors: every sample must come out as 2^(P-1)
     for j in range(ctx.n(250, 5000)):
         b, exp = gen_lossless_sub(rng)
@@ -1062,6 +1081,8 @@ def run_cases(ctx, drv, exe, blk, cases, oracle_every=1):
     crop_cases = [(l, k) for (l, k) in cases if l.startswith("crop ")]
     bq_cases = [(l, k) for (l, k) in cases if l.startswith("bq ")]
     ll_cases = [(l, k) for (l, k) in cases if l.startswith("ll ")]
+    ari_cases = [(l, k) for (l, k) in cases if l.startswith("ari ")]
+    coef_cases = [(l, k) for (l, k) in cases if l.startswith("coef ")]
     must_fail = set()
 
     # ---- model side
@@ -1258,9 +1279,62 @@ def run_cases(ctx, drv, exe, blk, cases, oracle_every=1):
                         ctx.broken_tie("correspondence:prog-block", "progressive block model and implementation differ on: %s || model=%s || impl=%s" % (line[:600], m[:300], res[:300]))
             ctx.count("prog-block", 1, res[:200])
         ctx.cov["progressive_block_cases"] = pstat
+    # ---- arithmetic decoder: statistics-bin offset of every arith_decode call site, real jdarith.c vs model/DArith.v
+    adis = 0
+    amcus = 0
+    if ari_cases and getattr(ctx, "arith_exe", None) and drv:
+        rc, out, err = sh2([ctx.arith_exe], input=("\n".join(l for l, _ in ari_cases) + "\n").encode(), timeout=600, env=ENV)
+        ilines = [l for l in out.decode("utf-8", "replace").split("\n") if l.startswith("ari K=")]
+        if rc != 0:
+            ctx.violation("arithmetic decode (sequential) crashed (rc=%d): %s" % (rc, (re.search(r"(ERROR: \w+Sanitizer[^\n]*|runtime error[^\n]*)", err) or [err[-200:]])[0]),
+                          {"lines": [l for l, _ in ari_cases][:3], "stderr": err[-3000:]}, signature=san_signature(err))
+        if ilines:
+            rc2, out2, err2 = sh2([drv], input=("\n".join("aric " + l[4:] for l in ilines) + "\n").encode(), timeout=600)
+            ml2 = out2.decode().split("\n")
+            if rc2 != 0 or len(ml2) < len(ilines):
+                ctx.broken_tie("model-driver", "arith replay failed: rc=%d %s" % (rc2, err2[-200:]))
+            else:
+                for il, m in zip(ilines, ml2):
+                    amcus += 1
+                    want = re.sub(r":[01]", "", il)
+                    if m != want:
+                        adis += 1
+                        if adis <= 2:
+                            ctx.log("arith offsets model/impl disagree\n  impl : %s\n  model: %s" % (want[:400], m[:400]))
+                            ctx.broken_tie("correspondence:arith-offsets", "statistics-bin offsets of jdarith.c decode_mcu and of the model differ: impl=%s || model=%s" % (want[:500], m[:500]))
+                    ctx.count("arith-mcu", 1, want[:120])
+        ctx.cov["arith_offset_mcus_compared"] = amcus
+        ctx.cov["arith_offset_streams"] = len(ari_cases)
+    # ---- coefficient controller: (component, row, column) of every MCU_buffer[] pointer, real consume_data vs model/DCoefPos.v
+    cdis = 0
+    cmcus = 0
+    cstat = {}
+    if coef_cases and getattr(ctx, "coef_exe", None) and drv:
+        rc, out, err = sh2([ctx.coef_exe], input=("\n".join(l for l, _ in coef_cases) + "\n").encode(), timeout=600, env=ENV)
+        ilines = [l for l in out.decode("utf-8", "replace").split("\n") if l.startswith("coef il=")]
+        if rc != 0:
+            ctx.violation("multi-scan input (consume_data) crashed (rc=%d): %s" % (rc, (re.search(r"(ERROR: \w+Sanitizer[^\n]*|runtime error[^\n]*)", err) or [err[-200:]])[0]),
+                          {"lines": [l for l, _ in coef_cases][:3], "stderr": err[-3000:]}, signature=san_signature(err))
+        if ilines:
+            rc2, out2, err2 = sh2([drv], input=("\n".join("coefc " + l[5:] for l in ilines) + "\n").encode(), timeout=600)
+            ml2 = out2.decode().split("\n")
+            if rc2 != 0 or len(ml2) < len(ilines):
+                ctx.broken_tie("model-driver", "coef replay failed: rc=%d %s" % (rc2, err2[-200:]))
+            else:
+                for il, m in zip(ilines, ml2):
+                    cmcus += 1
+                    key = "interleaved" if " il=1 " in il else "single-component"
+                    cstat[key] = cstat.get(key, 0) + 1
+                    if m != il:
+                        cdis += 1
+                        if cdis <= 2:
+                            ctx.log("coef positions model/impl disagree\n  impl : %s\n  model: %s" % (il[:400], m[:400]))
+                            ctx.broken_tie("correspondence:coef-positions", "block positions of consume_data and of the model differ: impl=%s || model=%s" % (il[:500], m[:500]))
+                    ctx.count("coef-mcu", 1, il[:100])
+        ctx.cov["coef_position_mcus_compared"] = cstat
     if mlines is not None:
-        ctx.cov["traces_validated_against_impl"] = len(hdr_cases) + len(blk_cases) + len(prog_cases)
-    ctx.cov["model_impl_disagreements"] = disagree + bdis + pdis
+        ctx.cov["traces_validated_against_impl"] = len(hdr_cases) + len(blk_cases) + len(prog_cases) + amcus + cmcus
+    ctx.cov["model_impl_disagreements"] = disagree + bdis + pdis + adis + cdis
     ctx.cov["start_decompress_errors_outside_model"] = unmodelled
     ctx.cov["streams_accepted_by_impl"] = accepted
     ctx.cov["implementation_verdicts"] = verdicts
